@@ -109,6 +109,15 @@ def pub_raw_parse(raw):
     return (p.pub_version, p.depth, p.parent_fingerprint, p.child_number, p.chain_code, p.point, p.network)
 
 
+def priv_parse_parts(version, rest):
+    """raw_parse of the 78 bytes version || rest (4 + 74)"""
+    return priv_raw_parse(version + rest)
+
+
+def pub_parse_parts(version, rest):
+    return pub_raw_parse(version + rest)
+
+
 def priv_raw_roundtrip(k, c, depth, fp, num, version):
     raw = mk_priv(k, c, depth, fp, num).raw_serialize(version)
     n = HDPrivateKey.raw_parse(BytesIO(raw))
